@@ -239,6 +239,11 @@ func Finish(spec Spec, tier string, seed int, results []*Result, known []KnownEn
 			ndis++
 		}
 	}
+	if os.Getenv("RIECHECK_DUMP") != "" {
+		for _, o := range all {
+			fmt.Printf("DUMP %-10s %s | %s | %s\n", o.Status, o.Key, o.Pos, o.Detail)
+		}
+	}
 	vacuous := false
 	if len(distinct) < spec.MinObs {
 		vacuous = true
